@@ -59,6 +59,9 @@ ZERO = z3.RealVal(0)
 ONE = z3.RealVal(1)
 
 
+FLOAT_ALIAS = {}  # float literal -> z3 term; set (and cleared) by a harness that states the identification as an assumption
+
+
 def rv(x):
     """exact rational constant"""
     if isinstance(x, Fraction):
@@ -71,6 +74,9 @@ def rv(x):
         x = float(x)
         if x != x or x in (float("inf"), float("-inf")):
             raise ValueError("non-finite float has no real value: %r" % x)
+        if FLOAT_ALIAS and abs(x) in FLOAT_ALIAS:
+            # a decimal literal read as the irrational it abbreviates (stated as an assumption by the harness)
+            return FLOAT_ALIAS[abs(x)] if x > 0 else -FLOAT_ALIAS[abs(x)]
         return z3.RealVal(Fraction(x))
     raise TypeError(type(x))
 
